@@ -108,8 +108,6 @@ def run(chk):
 
         def assume(text, env):
             # the matrix is generic: nothing vanishes, and a discriminant is not within a tolerance of zero
-            if "!= 0" in text:
-                return True
             return decide_on_values(box[0], text, env)
 
         box = [None]
